@@ -512,9 +512,10 @@ class SciPyOptimizer(Optimizer):
             and self._config.variables.types is not None
             and "integrality" not in options
         ):
-            options["integrality"] = (
-                self._config.variables.types == VariableType.INTEGER
-            )
+            types = self._config.variables.types
+            if self._config.variables.mask is not None:
+                types = types[self._config.variables.mask]
+            options["integrality"] = types == VariableType.INTEGER
 
         return options
 
